@@ -15,6 +15,9 @@ type cfg struct {
 	name                                string
 	dt                                  float64
 	levels, vols, areas, minRel, maxRel []float64
+	// nonMonotone: the tank's residence time is comparable to the sub-step floor, so within one step the volume can
+	// overshoot its end value; the volumes traversed are then only bounded by the step's cumulative fluxes
+	nonMonotone bool
 }
 
 func interp(v float64, xs, ys []float64) float64 {
@@ -67,13 +70,18 @@ func configs() []cfg {
 		rels["uncontrolled-outlet"] = [2][]float64{incMax, incMax} // the release follows the volume
 		for _, rn := range []string{"release-zero", "max-constant", "max-increasing", "spillway", "uncontrolled-outlet"} {
 			for _, dt := range []float64{86400, 3600} {
-				out = append(out, cfg{fmt.Sprintf("%s/%s/dt=%g", t.n, rn, dt), dt, t.l, t.v, t.a, rels[rn][0], rels[rn][1]})
+				out = append(out, cfg{fmt.Sprintf("%s/%s/dt=%g", t.n, rn, dt), dt, t.l, t.v, t.a, rels[rn][0], rels[rn][1], false})
 			}
 		}
 	}
+	// a small tank with a steep outlet and timesteps that are not a multiple of the kernel's minimum sub-step (6 s):
+	// a demand far above the inflow over-draws it within one step, so the sub-step controller halves down to its floor
+	for _, dt := range []float64{10, 1000, 86400} {
+		out = append(out, cfg{fmt.Sprintf("n=2-small-tank/steep-max/dt=%g", dt), dt, []float64{0, 10}, []float64{0, 1000}, []float64{0, 100}, []float64{0, 0}, []float64{0, 150}, true})
+	}
 	// a flat-bottomed tank: area > 0 at zero volume (monotone, but evaporation can exceed the water available)
 	for _, dt := range []float64{86400, 3600} {
-		out = append(out, cfg{fmt.Sprintf("n=2-flat-bottom/release-zero/dt=%g", dt), dt, []float64{0, 10}, []float64{0, 1e6}, []float64{1e5, 1e5}, []float64{0, 0}, []float64{0, 0}})
+		out = append(out, cfg{fmt.Sprintf("n=2-flat-bottom/release-zero/dt=%g", dt), dt, []float64{0, 10}, []float64{0, 1e6}, []float64{1e5, 1e5}, []float64{0, 0}, []float64{0, 0}, false})
 	}
 	return out
 }
@@ -113,6 +121,9 @@ func oracle(cf cfg) func(c *gridx.Case, r *vf.Rec) {
 			}
 			// atmospheric volumes: rain/pet depth over an area between the areas traversed
 			lo, hi := math.Min(prev, V), math.Max(prev, V)
+			if cf.nonMonotone {
+				lo, hi = math.Max(0, math.Min(lo, prev-(Q+ev)*cf.dt)), math.Max(hi, prev+(inflow+rv)*cf.dt)
+			}
 			aLo, aHi := interp(lo, cf.vols, cf.areas), interp(hi, cf.vols, cf.areas)
 			if hi > top {
 				aHi = cf.areas[len(cf.areas)-1]
@@ -187,7 +198,7 @@ func spaces(tier string) []*gridx.Space {
 func Spec() *vf.Check {
 	return &vf.Check{
 		ID: "C13", Level: "exploration", BlockSize: 64,
-		Rule: "Storage x 5 level-volume-area tables (2, 3 convex, 4 concave, 4 with a short top segment, 3 starting at a volume above empty; area 0 at the first point) x 5 release-curve families (zero, constant max, increasing max, spillway, uncontrolled outlet min=max) x dt {86400,3600} x initial volume {empty, 40%, 90%, full} x every word of length T over 10 (rain,PET,inflow,demand,targetMinimumVolume,targetMinimumCapacity) letters (filling to spill and drawing down to empty occur); plus long periodic series: every word of length 1..2 over 4 letters repeated 512 times (512 / 1024 daily steps) for the uncontrolled-outlet tables (thorough: spillway tables too); " +
+		Rule: "Storage x 5 level-volume-area tables (2, 3 convex, 4 concave, 4 with a short top segment, 3 starting at a volume above empty; area 0 at the first point) x 5 release-curve families (zero, constant max, increasing max, spillway, uncontrolled outlet min=max) x dt {86400,3600} (plus a 1000 m3 tank with a steep outlet at dt 10, 1000, 86400 s) x initial volume {empty, 40%, 90%, full} x every word of length T over 10 (rain,PET,inflow,demand,targetMinimumVolume,targetMinimumCapacity) letters (filling to spill and drawing down to empty occur); plus long periodic series: every word of length 1..2 over 4 letters repeated 512 times (512 / 1024 daily steps) for the uncontrolled-outlet tables (thorough: spillway tables too); " +
 			"per step: balance with the reported rainfall/evaporation volumes, those volumes = depth x area over the areas traversed, V>=0, outflow within the release curves over the volumes traversed, = demand when admissible at both ends, excess only above full supply; final level/area = table values. distinct_nontrivial = words that move water.",
 		Assumptions:   []string{"tables are physically consistent: zero area and zero release at (and below) the first table point (a reservoir cannot release or evaporate from nothing)", "within one step the volume moves monotonically (constant forcing) up to the sub-step controller's tolerance, so curve values at the step's end volumes bound the release within 1e-4 relative + 1e-3 m3/s", "lattice values only"},
 		Build:         func(tier string) vf.Enumeration { return gridx.NewEnum("C13", spaces(tier)) },
